@@ -11,7 +11,7 @@ HDRS = [b'Host: h.example', b'Host: h:8', b'Host: [::1]:80', b'Content-Length: 3
 	b'Transfer-Encoding: gzip', b'Transfer-Encoding: foo', b'Transfer-Encoding: gzip, chunked', b'Trailer: Foo', b'Trailer: Foo, Baz', b'Trailer: Content-Length', b'Trailer: Host',
 	b'Content-Encoding: gzip', b'Content-Encoding: deflate', b'Content-Encoding: br', b'Content-Encoding: foo', b'Content-Encoding: identity',
 	b'Content-Type: text/plain; charset=x', b'Content-Type: multipart/form-data; boundary=" "', b'Foo: =?utf-8?b?4oaS?=', b'Foo: =?foo?b?4oaS?=', b'Foo: =?utf-8?q?=ff?=',
-	b'Foo: bar', b'foo: baz', b'FOO:qux', b'Foo: a\r\n b', b'Foo: a\r\n\tb', b'Accept: text/html;q=x', b'Connection: Upgrade, HTTP2-Settings', b'Upgrade: h2c', b'HTTP2-Settings: Zm9v',
+	b'Foo: bar', b'foo: baz', b'FOO:qux', b'Foo: a\r\n b', b'Foo: a\r\n\tb', b'Accept: text/html;q=x', b'Connection: Upgrade, HTTP2-Settings', b'Connection: close', b'connection: Close', b'Connection: keep-alive', b'Connection: close, TE', b'Upgrade: h2c', b'HTTP2-Settings: Zm9v',
 	b'X: \xff\xfe', b'Cookie: a=b; c', b'Cookie: d=e', b'Host: \xff', b'Host:', b'Host: a b', b'Host: a:b', b'ETag: "x"', b'etag: "y"', b'Content-MD5: abc', b'X-Empty:', b'X-Sp:   v  ',
 	b'Bad Name: x', b'NoColon', b': empty-name', b'Transfer-Encoding: =?utf-8?q?chunked?=', b'Content-Length: =?utf-8?q?3?=', b'Set-Cookie: a=b; expires=Wed, 09 Jun 2021 10:18:14 GMT']
 STATUS = [b'200 OK', b'204 No Content', b'404 Not Found', b'404', b'99 X', b'200  Two  Words', b'600 X', b'200 \xff', b'304 Not Modified', b'100 Continue', b'301 Moved Permanently', b'500 Internal Server Error']
@@ -31,8 +31,8 @@ def chunked_body(rng, payload=None, trailers=None, le=b'\r\n'):
 		c = payload[i:i + n]
 		i += n
 		size = rng.choice([b'%x', b'%X', b'0%x', b'%x ']) % (len(c),)
-		out += size + rng.choice([b'', b'', b';x=y', b';q', b' ;  a="b;c"']) + le + c + le
-	out += rng.choice([b'0', b'0', b'00', b'0;last']) + le
+		out += size + rng.choice([b'', b'', b';x=y', b';q', b' ;  a="b;c"', b';name=value;other', b';note="the end of it"', b';' + b'e' * rng.choice([13, 14, 15, 16, 40, 120])]) + le + c + le
+	out += rng.choice([b'0', b'0', b'00', b'0;last', b'0;note="the end";x=12345']) + le
 	for t in (trailers or []):
 		out += t + le
 	out += le
@@ -187,6 +187,8 @@ def gen_wf(rng, kind, n=None):
 			fields.append((rng.choice([b'Host', b'host', b'HOST']), hostv))
 		for _ in range(rng.randint(0, 4)):
 			fields.append((rng.choice(TOKEN_NAMES), field_value(rng)))
+		if rng.random() < .15:
+			fields.append((rng.choice([b'Connection', b'connection']), rng.choice([b'close', b'Close', b'keep-alive', b'close, TE'])))
 		if fields and rng.random() < .35:
 			# a field repeated on the wire (other fields may come in between after the shuffle), name case varied
 			nme = rng.choice(fields)[0]
